@@ -232,6 +232,8 @@ class ConditionalEffectsRemover(engines.engine.Engine, CompilerMixin):
                 new_action = action.clone()
                 new_action.name = get_fresh_name(new_problem, action.name)
                 new_action.clear_effects()
+                # set when two effects of this variant conflict: the variant is dropped
+                conflicting = False
                 for e in action.unconditional_effects:
                     new_action._add_effect_instance(e.clone())
                 for i, e in enumerate(cond_effects):
@@ -250,14 +252,15 @@ class ConditionalEffectsRemover(engines.engine.Engine, CompilerMixin):
                         try:
                             new_action._add_effect_instance(ne)
                         except UPConflictingEffectsException:
-                            continue
+                            conflicting = True
+                            break
                     else:
                         # negative precondition
                         new_action.add_precondition(
                             env.expression_manager.Not(e.condition)
                         )
                 # new action is created, then is checked if it has any impact and if it can be simplified
-                if len(new_action.effects) > 0:
+                if not conflicting and len(new_action.effects) > 0:
                     (
                         action_is_feasible,
                         simplified_preconditions,
@@ -278,6 +281,8 @@ class ConditionalEffectsRemover(engines.engine.Engine, CompilerMixin):
                 new_action = action.clone()
                 new_action.name = get_fresh_name(new_problem, action.name)
                 new_action.clear_effects()
+                # set when two effects of this variant conflict: the variant is dropped
+                conflicting = False
                 for t, el in action.unconditional_effects.items():
                     for e in el:
                         new_action._add_effect_instance(t, e.clone())
@@ -297,14 +302,15 @@ class ConditionalEffectsRemover(engines.engine.Engine, CompilerMixin):
                         try:
                             new_action._add_effect_instance(t, ne)
                         except UPConflictingEffectsException:
-                            continue
+                            conflicting = True
+                            break
                     else:
                         # negative precondition
                         new_action.add_condition(
                             t, env.expression_manager.Not(e.condition)
                         )
                 # new action is created, then is checked if it has any impact and if it can be simplified
-                if len(new_action.effects) > 0:
+                if not conflicting and len(new_action.effects) > 0:
                     (
                         action_is_feasible,
                         simplified_conditions,
